@@ -4,7 +4,7 @@
 usage: mut.py <relpath> <old> <new> <ID> [tier]   (old must occur exactly once
 unless prefixed by N: to pick the N-th occurrence, 0-based)
 """
-import subprocess, sys, re
+import os, subprocess, sys, re
 rel, old, new, pid = sys.argv[1:5]
 tier = sys.argv[5] if len(sys.argv) > 5 else 'quick'
 path = '/repo/' + rel
@@ -24,7 +24,7 @@ try:
   open(path, 'w').write(mut)
   rc = 0
   for p in pid.split(','):
-    r = subprocess.run(['/verif/check', p, '--tier', tier], capture_output=True, text=True)
+    r = subprocess.run(['/verif/check', p, '--tier', tier], capture_output=True, text=True, env=dict(os.environ, VERIF_NO_EVIDENCE='1'))
     out = [l for l in r.stdout.splitlines() if l.startswith(('VIOLATION', 'OK', 'FAIL', 'KNOWN', '  key'))]
     print('\n'.join(out[:8]))
     err = [l for l in r.stderr.splitlines() if 'HARNESS' in l or 'Error' in l]
